@@ -429,6 +429,11 @@ def eval_robj(ctx: Ctx, c: dict):
             opt_ok = True
         except dns.exception.TooBig:
             tr.append(f"opt:big:{r.output.tell()}")
+        except dns.exception.FormError:
+            tr.append("opt:err:FormError")          # the padding fits its option, the OPT RDATA as a whole does not fit RDLENGTH
+        except Exception as e:  # noqa: BLE001
+            fail(ctx, f"C08/renderer/add_opt/raises/{type(e).__name__}", f"add_opt(pad={pad}, opt_size={osz}, tsig_size={tsz}) raised {type(e).__name__}: {e}", c)
+            return
     if hm != 1:
         r.write_header()
     if c["tsig"] is not None:
@@ -530,8 +535,8 @@ def eval_padhuge(ctx: Ctx, c: dict):
             w = m.to_wire(max_size=ms)
             if len(w) % c["pad"] or len(w) > 65535:
                 fail(ctx, "C08/to_wire/padding-multiple/other", f"pad={c['pad']}: {len(w)} octets", c)
-        except (dns.exception.TooBig, dns.exception.FormError, ValueError):
-            pass
+        except dns.exception.TooBig:
+            pass     # (repair 2d35a76: what every other unrenderable size gives)
         except Exception as e:  # noqa: BLE001
             fail(ctx, f"C08/to_wire/raises/{type(e).__name__}/padding-option-over-65535",
                  f"use_edns(pad={c['pad']}) then to_wire(max_size={ms}) raised {type(e).__name__} ({e}) instead of TooBig", c)
@@ -895,13 +900,15 @@ def gen_robj(rng):
                      "mac": "", "orig_id": rng.choice([c["id"], rng.below(65536)]), "error": 0, "other": ""}
         c["secret"] = rng.bytes(rng.choice([8, 16, 32])).hex()
     pad = 0 if rng.chance(1, 10) else rng.choice(ROBJ_PADS) if rng.chance(2, 3) else 1 + rng.below(64)
+    if rng.chance(1, 60):
+        pad = rng.choice([65536, 65600, 70000, 200000])   # a padding the PADDING option cannot (or can only just) carry
     osz, tsz = opt_size_of(c, pad), tsig_size_of(c)
 
     def sections_size():
         m, _ = mk_message(c)
         return true_full_size(dict(c, opt=None, tsig=None), m)
 
-    if pad and filler and c["opt"] is not None and rng.chance(2, 3):
+    if pad and pad < 1000 and filler and c["opt"] is not None and rng.chance(2, 3):
         d = (-(sections_size() + osz + tsz)) % pad
         f = sections[3][-1]["rdatas"][0]
         f["b"] = (bytes.fromhex(f["b"]) + rng.bytes(d)).hex()
@@ -1008,7 +1015,7 @@ def generate(ctx: Ctx, scale: int, rng):
             ctx.count("gen.rejected")
             continue
         c["kind"] = "pads"
-        c["pads"] = PADS if i % 4 else PADS + [255, 256, 512, 1000, 4096, 65535, 65536]
+        c["pads"] = PADS if i % 4 else PADS + [255, 256, 512, 1000, 4096, 65535, 65536, 65600, 70000, 131072]
         m, _ = mk_message(c)
         _, w = render(m, 65535)
         c["max_size"] = rng.choice([65535, 65535, 512, len(w) + rng.choice([0, 1, 5, 40, 130])])
@@ -1106,6 +1113,7 @@ LEVEL = {
             "renderer_padding_multiple — the same through the Renderer object (add_opt with the exact opt_size/tsig_size, write_header, "
             "add_tsig/add_multi_tsig = _write_tsig): the signed message is a multiple of the block in any renderer state, aligned or not, "
             "compressible key name or not, and the TSIG leaves the table alone; "
+            "padding_too_long_is_too_big — a block whose padding would not fit a PADDING option (> 65535 octets) is TooBig before anything is written; "
             "reserve_too_big — OPT+TSIG reserves beyond the limit give TooBig. Tied to the code by correspondence at every limit from 505 to len+2, at limits on both sides of the [512, 65535] clamp on small and on 64-KiB messages, every pad block in {1..64,128,468}, "
             "the Renderer object route (octets with the MAC masked, table and per-call trace equal the model's; direct oracle: length ≡ 0 mod "
             "block, ≤ max_size, from_wire with the keyring verifies the TSIG, records/OPT/PADDING present) and step-by-step Renderer traces.",
